@@ -62,16 +62,23 @@ const loBits = 30
 func pair(a uint64) []int   { return []int{int(a >> loBits), int(a & (1<<loBits - 1))} }
 func unpair(p []int) uint64 { return uint64(p[0])<<loBits | uint64(p[1]) }
 
-// pageMapper routes by page number: the port for address a is prefix<(a>>log2ps) % n>.Top.
+// pageMapper routes by page number: the provider of address a is ports[(a>>log2ps) % len(ports)].
 // It is the harness's own definition of "the provider for this address".
 type pageMapper struct {
-	prefix string
+	ports  []sim.RemotePort
 	log2ps uint64
-	n      uint64
 }
 
 func (m *pageMapper) Find(a uint64) sim.RemotePort {
-	return sim.RemotePort(fmt.Sprintf("%s%d.Top", m.prefix, (a>>m.log2ps)%m.n))
+	return m.ports[(a>>m.log2ps)%uint64(len(m.ports))]
+}
+
+func benchPorts(prefix string, n int) []sim.RemotePort {
+	out := make([]sim.RemotePort, n)
+	for i := range out {
+		out[i] = sim.RemotePort(fmt.Sprintf("%s%d.Top", prefix, i))
+	}
+	return out
 }
 
 // portIndex extracts k from "<prefix><k>.<anything>"; -1 if the name has another shape.
@@ -138,8 +145,8 @@ func newRun(rec *ab.Recorder, cfg Scenario) *run {
 	rec.SetBase("tr", 201)
 	at := addresstranslator.MakeBuilder().WithEngine(r.eng).WithFreq(1 * sim.GHz).
 		WithNumReqPerCycle(cfg.Width).WithLog2PageSize(uint64(cfg.Log2PS)).WithDeviceID(uint64(cfg.Dev)).
-		WithMemoryProviderMapper(&pageMapper{"Mem", uint64(cfg.Log2PS), uint64(cfg.NMem)}).
-		WithTranslationProviderMapper(&pageMapper{"TLB", uint64(cfg.Log2PS), uint64(cfg.NTlb)}).
+		WithMemoryProviderMapper(&pageMapper{benchPorts("Mem", cfg.NMem), uint64(cfg.Log2PS)}).
+		WithTranslationProviderMapper(&pageMapper{benchPorts("TLB", cfg.NTlb), uint64(cfg.Log2PS)}).
 		Build("AT")
 	r.top, r.bot = at.GetPortByName("Top"), at.GetPortByName("Bottom")
 	r.tr, r.ctrl = at.GetPortByName("Translation"), at.GetPortByName("Control")
@@ -147,6 +154,13 @@ func newRun(rec *ab.Recorder, cfg Scenario) *run {
 	for _, p := range []sim.Port{r.top, r.bot, r.tr, r.ctrl} {
 		conn.PlugIn(p)
 	}
+	r.hook()
+	return r
+}
+
+// hook attaches the port-event recorder to the four ports of the translator.
+func (r *run) hook() {
+	rec := r.rec
 	emit := func(e string, f ab.Rec) {
 		r.count[e]++
 		rec.Emit(e, f)
@@ -237,7 +251,6 @@ func newRun(rec *ab.Recorder, cfg Scenario) *run {
 			}
 		}
 	}))
-	return r
 }
 
 func (r *run) tick(n int) {
@@ -685,6 +698,7 @@ func main() {
 	nrand := flag.Int("random", 0, "number of random runs")
 	reqs := flag.Int("reqs", 30, "requests per random run")
 	seed := flag.Int64("seed", 1, "seed")
+	nsys := flag.Int("system", 0, "number of system runs (real TLB, MMU, memory controllers, connections, engine)")
 	flag.BoolVar(&verbose, "v", false, "print every scenario step to stderr")
 	flag.Parse()
 
@@ -737,6 +751,12 @@ func main() {
 			}
 			r.finish()
 		})
+	}
+	for i := 0; i < *nsys; i++ {
+		traces++
+		for k, v := range systemRun(rec, rng, *reqs) {
+			stats[k] += v
+		}
 	}
 	w.Flush()
 	f.Close()
